@@ -72,3 +72,365 @@ Proof.
   assert (In q []) as [].
   rewrite <- H. apply filter_In. split; [exact Hq|]. rewrite E. reflexivity.
 Qed.
+
+(* ====================================================================== winding number: more laws *)
+
+Lemma wn_paths_Forall2 (R : path -> path -> Prop) q :
+  (forall p p', R p p' -> wn p q = wn p' q) ->
+  forall S S', Forall2 R S S' -> wn_paths S q = wn_paths S' q.
+Proof.
+  intros HR S S' H. unfold wn_paths. induction H as [|p p' S S' Hp _ IH]; [reflexivity|].
+  cbn [map zsum]. rewrite (HR _ _ Hp), IH. reflexivity.
+Qed.
+
+Lemma wn_paths_map (f : path -> path) (g : pt -> pt) S q :
+  (forall p, wn (f p) (g q) = wn p q) -> wn_paths (map f S) (g q) = wn_paths S q.
+Proof.
+  intros H. unfold wn_paths. rewrite map_map. f_equal. apply map_ext. intros p. apply H.
+Qed.
+
+Lemma wn_paths_map_opp (f : path -> path) (g : pt -> pt) S q :
+  (forall p, In p S -> wn (f p) (g q) = - wn p q) -> wn_paths (map f S) (g q) = - wn_paths S q.
+Proof.
+  intros H. unfold wn_paths. rewrite map_map. rewrite <- zsum_map_opp.
+  apply zsum_map_ext. exact H.
+Qed.
+
+(* ---------- duplicate vertices ---------- *)
+From Clip Require Import model.LocMin.
+
+Lemma open_edges_hd_irrel a (X Y : list pt) :
+  hd_error X = hd_error Y ->
+  open_edges (a :: X) = match hd_error Y with Some b => [(a, b)] | None => [] end ++ open_edges X.
+Proof.
+  destruct X as [|x X], Y as [|y Y]; cbn [hd_error]; intros H; try discriminate; [reflexivity|].
+  inversion H; subst. reflexivity.
+Qed.
+
+Lemma wsum_open_cons q a (X Y : list pt) :
+  hd_error X = hd_error Y -> wsum q (open_edges X) = wsum q (open_edges Y) ->
+  wsum q (open_edges (a :: X)) = wsum q (open_edges (a :: Y)).
+Proof.
+  intros Hh Hw.
+  rewrite (open_edges_hd_irrel a X Y Hh), (open_edges_hd_irrel a Y Y eq_refl).
+  rewrite !wsum_app, Hw. reflexivity.
+Qed.
+
+Lemma wsum_repeat_front q a k rest :
+  wsum q (open_edges (a :: repeat a k ++ rest)) = wsum q (open_edges (a :: rest)).
+Proof.
+  induction k as [|k IH]; [reflexivity|].
+  cbn [repeat app]. rewrite open_edges_cons2. unfold wsum in *. cbn [map zsum].
+  rewrite edge_w_degenerate, IH. lia.
+Qed.
+
+Lemma hd_error_repeat_each m l r : hd_error (repeat_each m l ++ r) = hd_error (l ++ r).
+Proof. destruct l as [|a t]; reflexivity. Qed.
+
+Lemma wsum_repeat_each q m l r :
+  wsum q (open_edges (repeat_each m l ++ r)) = wsum q (open_edges (l ++ r)).
+Proof.
+  revert m; induction l as [|a t IH]; intros m; [reflexivity|].
+  cbn [repeat_each]. rewrite <- !app_assoc. cbn [app].
+  rewrite wsum_repeat_front.
+  apply wsum_open_cons; [apply hd_error_repeat_each|apply IH].
+Qed.
+
+Lemma wsum_mid_repeat q l a k rest :
+  wsum q (open_edges (l ++ a :: repeat a k ++ rest)) = wsum q (open_edges (l ++ a :: rest)).
+Proof.
+  induction l as [|x l IH]; [apply wsum_repeat_front|].
+  cbn [app]. apply wsum_open_cons; [|exact IH].
+  destruct l; reflexivity.
+Qed.
+
+Lemma repeat_snoc {A} (a : A) c : repeat a c ++ [a] = a :: repeat a c.
+Proof. induction c as [|c IH]; [reflexivity|]. cbn [repeat app]. rewrite IH. reflexivity. Qed.
+
+Theorem wn_insert_dups m c p q : wn (insert_dups m c p) q = wn p q.
+Proof.
+  destruct p as [|a t]; [reflexivity|].
+  unfold wn, insert_dups.
+  assert (cyc_edges (repeat_each m (a :: t) ++ repeat a c) = open_edges ((repeat_each m (a :: t) ++ repeat a c) ++ [a])) as ->.
+  { cbn [repeat_each app]. reflexivity. }
+  rewrite <- app_assoc, wsum_repeat_each, repeat_snoc.
+  replace (a :: repeat a c) with (a :: repeat a c ++ []) by (rewrite app_nil_r; reflexivity).
+  rewrite wsum_mid_repeat. reflexivity.
+Qed.
+
+(* ---------- telescoping sums over a closed path ---------- *)
+Lemma last_cons_irrel {A} (l : list A) x d d' : last (x :: l) d = last (x :: l) d'.
+Proof. revert x; induction l as [|y l IH]; intros x; [reflexivity|]. cbn [last] in *. apply IH. Qed.
+
+Lemma zsum_telescope_open (phi : pt -> Z) (l : list pt) a :
+  zsum (map (fun e => phi (snd e) - phi (fst e)) (open_edges (a :: l))) = phi (last l a) - phi a.
+Proof.
+  revert a; induction l as [|b l IH]; intros a; [cbn; lia|].
+  rewrite open_edges_cons2. cbn [map zsum fst snd]. rewrite IH.
+  destruct l as [|c l]; [cbn [last]; lia|].
+  change (last (b :: c :: l) a) with (last (c :: l) a).
+  rewrite (last_cons_irrel l c a b). lia.
+Qed.
+
+Lemma zsum_telescope_cyc (phi : pt -> Z) (p : path) :
+  zsum (map (fun e => phi (snd e) - phi (fst e)) (cyc_edges p)) = 0.
+Proof.
+  destruct p as [|a t]; [reflexivity|]. cbn [cyc_edges].
+  change ((a :: t) ++ [a]) with (a :: (t ++ [a])).
+  rewrite zsum_telescope_open, last_last. lia.
+Qed.
+
+Lemma zsum_map_add {A} (f g : A -> Z) l : zsum (map (fun x => f x + g x) l) = zsum (map f l) + zsum (map g l).
+Proof. induction l as [|x l IH]; [reflexivity|]. cbn [map zsum]. lia. Qed.
+
+(* if every edge satisfies  w e + w' e = phi (snd e) - phi (fst e)  then the two sums over a closed path are opposite *)
+Lemma wsum_opposite_by_potential (w w' : pt * pt -> Z) (phi : pt -> Z) (p : path) :
+  (forall e, In e (cyc_edges p) -> w e + w' e = phi (snd e) - phi (fst e)) ->
+  zsum (map w' (cyc_edges p)) = - zsum (map w (cyc_edges p)).
+Proof.
+  intros H.
+  pose proof (zsum_telescope_cyc phi p) as Ht.
+  rewrite <- (zsum_map_ext (fun e => w e + w' e) _ _ H) in Ht.
+  rewrite zsum_map_add in Ht. lia.
+Qed.
+
+(* ---------- orientation-reversing maps ---------- *)
+Definition transpose (v : pt) : pt := (py v, px v).
+Definition mirror_x (v : pt) : pt := (- px v, py v).
+Definition mirror_y (v : pt) : pt := (px v, - py v).
+
+Lemma on_seg_false_cases q a b : on_seg q (a, b) = false ->
+  cross a b q <> 0 \/ px q < Z.min (px a) (px b) \/ Z.max (px a) (px b) < px q
+  \/ py q < Z.min (py a) (py b) \/ Z.max (py a) (py b) < py q.
+Proof.
+  unfold on_seg. intros H.
+  destruct (cross a b q =? 0) eqn:E1; [|left; apply Z.eqb_neq, E1].
+  destruct (Z.min (px a) (px b) <=? px q) eqn:E2; [|right; left; lia].
+  destruct (px q <=? Z.max (px a) (px b)) eqn:E3; [|right; right; left; lia].
+  destruct (Z.min (py a) (py b) <=? py q) eqn:E4; [|right; right; right; left; lia].
+  destruct (py q <=? Z.max (py a) (py b)) eqn:E5; [discriminate|right; right; right; right; lia].
+Qed.
+
+(* potential for the transpose: indicator of the open quadrant above-right of q *)
+Definition phi_quad (q v : pt) : Z := if (px q <? px v) && (py q <? py v) then 1 else 0.
+(* potential for the x-mirror: indicator of the open half-plane above q *)
+Definition phi_up (q v : pt) : Z := if py q <? py v then 1 else 0.
+
+Lemma cross_rel a b q : cross a b q = (px a - px q) * (py b - py q) - (py a - py q) * (px b - px q).
+Proof. unfold cross; ring. Qed.
+
+Lemma cross_transpose a b q : cross (transpose a) (transpose b) (transpose q) = - cross a b q.
+Proof. unfold cross, transpose, px, py; cbn [fst snd]; ring. Qed.
+
+Lemma cross_mirror_x a b q : cross (mirror_x a) (mirror_x b) (mirror_x q) = - cross a b q.
+Proof. unfold cross, mirror_x, px, py; cbn [fst snd]; ring. Qed.
+
+Lemma edge_w_mirror_x q a b : on_seg q (a, b) = false ->
+  edge_w q (a, b) + edge_w (mirror_x q) (mirror_x a, mirror_x b) = phi_up q b - phi_up q a.
+Proof.
+  intros H. apply on_seg_false_cases in H.
+  unfold edge_w, phi_up. rewrite cross_mirror_x.
+  change (py (mirror_x a)) with (py a). change (py (mirror_x b)) with (py b). change (py (mirror_x q)) with (py q).
+  pose proof (cross_rel a b q) as Hc.
+  set (c := cross a b q) in *.
+  set (ax := px a - px q) in *. set (ay := py a - py q) in *.
+  set (bx := px b - px q) in *. set (by_ := py b - py q) in *.
+  assert (Hay : py a = ay + py q) by (unfold ay; lia).
+  assert (Hby : py b = by_ + py q) by (unfold by_; lia).
+  rewrite Hay, Hby.
+  destruct (ay + py q <=? py q) eqn:E1, (py q <? by_ + py q) eqn:E2,
+           (by_ + py q <=? py q) eqn:E3, (py q <? ay + py q) eqn:E4; cbn [andb]; try lia;
+  destruct (0 <? c) eqn:E5, (c <? 0) eqn:E6, (0 <? - c) eqn:E7, (- c <? 0) eqn:E8; try lia;
+  exfalso; assert (c = 0) by lia;
+  (destruct H as [H | [H | [H | [H | H]]]]; [lia | | | lia | lia]);
+  unfold ax, bx in *; nia.
+Qed.
+
+Lemma edge_w_transpose q a b : on_seg q (a, b) = false ->
+  edge_w q (a, b) + edge_w (transpose q) (transpose a, transpose b) = phi_quad q b - phi_quad q a.
+Proof.
+  intros H. apply on_seg_false_cases in H.
+  unfold edge_w, phi_quad. rewrite cross_transpose.
+  change (py (transpose a)) with (px a). change (py (transpose b)) with (px b). change (py (transpose q)) with (px q).
+  pose proof (cross_rel a b q) as Hc.
+  set (c := cross a b q) in *.
+  set (ax := px a - px q) in *. set (ay := py a - py q) in *.
+  set (bx := px b - px q) in *. set (by_ := py b - py q) in *.
+  assert (Hax : px a = ax + px q) by (unfold ax; lia).
+  assert (Hbx : px b = bx + px q) by (unfold bx; lia).
+  assert (Hay : py a = ay + py q) by (unfold ay; lia).
+  assert (Hby : py b = by_ + py q) by (unfold by_; lia).
+  rewrite Hax, Hbx, Hay, Hby in *.
+  clearbody c ax ay bx by_.
+  assert (Hon : c <> 0 \/ (0 < ax /\ 0 < bx) \/ (ax < 0 /\ bx < 0) \/ (0 < ay /\ 0 < by_) \/ (ay < 0 /\ by_ < 0)) by lia.
+  clear H Hax Hbx Hay Hby.
+  generalize (px q) (py q). intros qx qy.
+  destruct (Z.leb_spec (ay + qy) qy), (Z.ltb_spec qy (by_ + qy)),
+           (Z.leb_spec (by_ + qy) qy), (Z.ltb_spec qy (ay + qy)); cbn [andb]; try lia;
+  destruct (Z.leb_spec (ax + qx) qx), (Z.ltb_spec qx (bx + qx)),
+           (Z.leb_spec (bx + qx) qx), (Z.ltb_spec qx (ax + qx)); cbn [andb]; try lia;
+  destruct (Z.ltb_spec 0 c), (Z.ltb_spec c 0), (Z.ltb_spec 0 (- c)), (Z.ltb_spec (- c) 0); try lia; try nia.
+Qed.
+
+Lemma on_path_edges p q : on_path p q = false -> forall e, In e (cyc_edges p) -> on_seg q e = false.
+Proof.
+  unfold on_path. intros H e He.
+  destruct (on_seg q e) eqn:E; [|reflexivity].
+  assert (existsb (on_seg q) (cyc_edges p) = true) by (apply existsb_exists; exists e; auto). congruence.
+Qed.
+
+Theorem wn_transpose p q : on_path p q = false -> wn (map transpose p) (transpose q) = - wn p q.
+Proof.
+  intros H. unfold wn, wsum. rewrite cyc_edges_map, map_map.
+  apply (wsum_opposite_by_potential (edge_w q) _ (phi_quad q)).
+  intros [a b] He. cbn [fst snd]. apply edge_w_transpose. apply (on_path_edges p q H _ He).
+Qed.
+
+Theorem wn_mirror_x p q : on_path p q = false -> wn (map mirror_x p) (mirror_x q) = - wn p q.
+Proof.
+  intros H. unfold wn, wsum. rewrite cyc_edges_map, map_map.
+  apply (wsum_opposite_by_potential (edge_w q) _ (phi_up q)).
+  intros [a b] He. cbn [fst snd]. apply edge_w_mirror_x. apply (on_path_edges p q H _ He).
+Qed.
+
+Lemma on_seg_transpose q a b : on_seg (transpose q) (transpose a, transpose b) = on_seg q (a, b).
+Proof.
+  unfold on_seg. rewrite cross_transpose.
+  change (px (transpose a)) with (py a). change (px (transpose b)) with (py b). change (px (transpose q)) with (py q).
+  change (py (transpose a)) with (px a). change (py (transpose b)) with (px b). change (py (transpose q)) with (px q).
+  replace (- cross a b q =? 0) with (cross a b q =? 0) by (destruct (Z.eqb_spec (cross a b q) 0), (Z.eqb_spec (- cross a b q) 0); lia).
+  destruct (cross a b q =? 0), (Z.min (py a) (py b) <=? py q), (py q <=? Z.max (py a) (py b)),
+           (Z.min (px a) (px b) <=? px q), (px q <=? Z.max (px a) (px b)); reflexivity.
+Qed.
+
+Lemma on_seg_mirror_x q a b : on_seg (mirror_x q) (mirror_x a, mirror_x b) = on_seg q (a, b).
+Proof.
+  unfold on_seg. rewrite cross_mirror_x.
+  change (py (mirror_x a)) with (py a). change (py (mirror_x b)) with (py b). change (py (mirror_x q)) with (py q).
+  change (px (mirror_x a)) with (- px a). change (px (mirror_x b)) with (- px b). change (px (mirror_x q)) with (- px q).
+  replace (- cross a b q =? 0) with (cross a b q =? 0) by (destruct (Z.eqb_spec (cross a b q) 0), (Z.eqb_spec (- cross a b q) 0); lia).
+  replace (Z.min (- px a) (- px b) <=? - px q) with (px q <=? Z.max (px a) (px b))
+    by (destruct (Z.leb_spec (px q) (Z.max (px a) (px b))), (Z.leb_spec (Z.min (- px a) (- px b)) (- px q)); lia).
+  replace (- px q <=? Z.max (- px a) (- px b)) with (Z.min (px a) (px b) <=? px q)
+    by (destruct (Z.leb_spec (Z.min (px a) (px b)) (px q)), (Z.leb_spec (- px q) (Z.max (- px a) (- px b))); lia).
+  destruct (cross a b q =? 0), (Z.min (py a) (py b) <=? py q), (py q <=? Z.max (py a) (py b)),
+           (Z.min (px a) (px b) <=? px q), (px q <=? Z.max (px a) (px b)); reflexivity.
+Qed.
+
+Lemma on_path_map (f : pt -> pt) p q :
+  (forall a b, on_seg (f q) (f a, f b) = on_seg q (a, b)) -> on_path (map f p) (f q) = on_path p q.
+Proof.
+  intros H. unfold on_path. rewrite cyc_edges_map.
+  induction (cyc_edges p) as [|[a b] l IH]; [reflexivity|]. cbn [map existsb fst snd]. rewrite H, IH. reflexivity.
+Qed.
+
+Lemma mirror_y_decomp v : mirror_y v = transpose (mirror_x (transpose v)).
+Proof. destruct v; reflexivity. Qed.
+
+Theorem wn_mirror_y p q : on_path p q = false -> wn (map mirror_y p) (mirror_y q) = - wn p q.
+Proof.
+  intros H.
+  assert (Hm : map mirror_y p = map transpose (map mirror_x (map transpose p))).
+  { rewrite !map_map. apply map_ext. intros v. apply mirror_y_decomp. }
+  rewrite Hm, mirror_y_decomp.
+  assert (H1 : on_path (map transpose p) (transpose q) = false)
+    by (rewrite (on_path_map transpose p q (on_seg_transpose q)); exact H).
+  assert (H2 : on_path (map mirror_x (map transpose p)) (mirror_x (transpose q)) = false)
+    by (rewrite (on_path_map mirror_x _ _ (on_seg_mirror_x _)); exact H1).
+  rewrite (wn_transpose _ _ H2), (wn_mirror_x _ _ H1), (wn_transpose _ _ H). lia.
+Qed.
+
+(* ====================================================================== the specification is representation independent *)
+
+Definition pmap_flips (m : pmap) : bool := match m with MTranspose | MMirrorX | MMirrorY => true | _ => false end.
+Definition pmap_ok (m : pmap) : Prop := match m with MScale k => 0 < k | _ => True end.
+
+Lemma on_paths_in ps q p : on_paths ps q = false -> In p ps -> on_path p q = false.
+Proof.
+  unfold on_paths. intros H Hp. destruct (on_path p q) eqn:E; [|reflexivity].
+  assert (existsb (fun p => on_path p q) ps = true) by (apply existsb_exists; exists p; auto). congruence.
+Qed.
+
+Lemma wn_paths_pmap m ps q : pmap_ok m -> (pmap_flips m = true -> on_paths ps q = false) ->
+  wn_paths (map_paths m ps) (apply_pmap m q) = if pmap_flips m then - wn_paths ps q else wn_paths ps q.
+Proof.
+  intros Hok Hon. unfold map_paths, map_path.
+  destruct m as [d| | | |k]; cbn [pmap_flips apply_pmap] in *.
+  - apply (wn_paths_map (map (fun v => padd v d)) (fun v => padd v d)). intros p. apply wn_translate.
+  - apply (wn_paths_map_opp (map transpose) transpose). intros p Hp. apply wn_transpose, (on_paths_in ps q p (Hon eq_refl) Hp).
+  - apply (wn_paths_map_opp (map mirror_x) mirror_x). intros p Hp. apply wn_mirror_x, (on_paths_in ps q p (Hon eq_refl) Hp).
+  - apply (wn_paths_map_opp (map mirror_y) mirror_y). intros p Hp. apply wn_mirror_y, (on_paths_in ps q p (Hon eq_refl) Hp).
+  - apply (wn_paths_map (map (pscale k)) (pscale k)). intros p. apply wn_scale, Hok.
+Qed.
+
+Lemma on_paths_app ps ps' q : on_paths (ps ++ ps') q = on_paths ps q || on_paths ps' q.
+Proof. unfold on_paths. apply existsb_app. Qed.
+
+Lemma flip_fr_invol fr : flip_fr (flip_fr fr) = fr.
+Proof. destruct fr; reflexivity. Qed.
+
+(* the same closed path given differently: another start vertex, or with repeated / closing vertices *)
+Definition same_ring (p p' : path) : Prop :=
+  (exists k, p' = rotl k p) \/ (exists m c, p' = insert_dups m c p).
+
+Lemma same_ring_wn q p p' : same_ring p p' -> wn p q = wn p' q.
+Proof.
+  intros [[k ->] | [m [c ->]]]; [symmetry; apply wn_rotate|symmetry; apply wn_insert_dups].
+Qed.
+
+Lemma wn_paths_rev S q : wn_paths (map (@rev pt) S) q = - wn_paths S q.
+Proof. exact (wn_paths_map_opp (@rev pt) (fun v => v) S q (fun p _ => wn_rev p q)). Qed.
+
+Theorem spec_invariance ct fr S C q :
+  (* path order *)
+  (forall S' C', Permutation S S' -> Permutation C C' -> spec_closed ct fr S' C' q = spec_closed ct fr S C q)
+  (* start vertex, duplicate and closing vertices *)
+  /\ (forall S' C', Forall2 same_ring S S' -> Forall2 same_ring C C' -> spec_closed ct fr S' C' q = spec_closed ct fr S C q)
+  (* subject <-> clip *)
+  /\ (ct = Intersection \/ ct = Union \/ ct = Xor -> spec_closed ct fr C S q = spec_closed ct fr S C q)
+  (* all paths reversed: EvenOdd/NonZero unchanged, Positive <-> Negative *)
+  /\ spec_closed ct (flip_fr fr) (map (@rev pt) S) (map (@rev pt) C) q = spec_closed ct fr S C q
+  (* translation, integer scaling (orientation preserving); transpose, mirrors (Positive <-> Negative) *)
+  /\ (forall m, pmap_ok m -> (pmap_flips m = true -> on_paths (S ++ C) q = false) ->
+        spec_closed ct (pmap_fr m fr) (map_paths m S) (map_paths m C) (apply_pmap m q) = spec_closed ct fr S C q).
+Proof.
+  unfold spec_closed. repeat split.
+  - intros S' C' HS HC. rewrite (wn_paths_perm _ _ q HS), (wn_paths_perm _ _ q HC). reflexivity.
+  - intros S' C' HS HC.
+    rewrite (wn_paths_Forall2 same_ring q (same_ring_wn q) _ _ HS), (wn_paths_Forall2 same_ring q (same_ring_wn q) _ _ HC).
+    reflexivity.
+  - intros Hct. symmetry. apply spec_swap, Hct.
+  - rewrite !wn_paths_rev.
+    rewrite spec_reverse, flip_fr_invol. reflexivity.
+  - intros m Hok Hon.
+    assert (HonS : pmap_flips m = true -> on_paths S q = false).
+    { intros Hf. specialize (Hon Hf). rewrite on_paths_app in Hon. apply Bool.orb_false_iff in Hon. apply Hon. }
+    assert (HonC : pmap_flips m = true -> on_paths C q = false).
+    { intros Hf. specialize (Hon Hf). rewrite on_paths_app in Hon. apply Bool.orb_false_iff in Hon. apply Hon. }
+    rewrite (wn_paths_pmap m S q Hok HonS), (wn_paths_pmap m C q Hok HonC).
+    destruct m; cbn [pmap_flips pmap_fr]; try reflexivity; rewrite spec_reverse, flip_fr_invol; reflexivity.
+Qed.
+
+(* hypotheses are satisfiable: a square, a rotated + padded representation of it, and a point inside *)
+Example spec_invariance_witness :
+  let sq := [(0,0);(10,0);(10,10);(0,10)] in
+  Forall2 same_ring [sq; sq] [rotl 1 sq; insert_dups [1%nat] 1 sq]
+  /\ on_paths ([sq] ++ []) (5, 5) = false /\ pmap_ok (MScale 3)
+  /\ spec_closed Union Positive [sq] [] (5, 5) = true
+  /\ spec_closed Union Negative (map_paths MTranspose [sq]) [] (apply_pmap MTranspose (5, 5)) = true.
+Proof.
+  cbv zeta. split; [|vm_compute; repeat split; reflexivity].
+  apply Forall2_cons; [left; exists 1%nat; reflexivity|].
+  apply Forall2_cons; [right; exists [1%nat], 1%nat; reflexivity|apply Forall2_nil].
+Qed.
+
+Theorem spec_algebra fr S C q :
+  spec_closed Xor fr S C q = spec_closed Union fr S C q && negb (spec_closed Intersection fr S C q)
+  /\ xorb (spec_closed Difference fr S C q) (spec_closed Intersection fr S C q) = spec_closed Union fr S [] q
+  /\ spec_closed Difference fr S C q && spec_closed Intersection fr S C q = false.
+Proof.
+  unfold spec_closed. split; [apply spec_xor|].
+  destruct (spec_partition fr (wn_paths S q) (wn_paths C q)) as [H1 H2]. split; [|exact H2].
+  rewrite H1. unfold in_result, combine_ct, wn_paths. cbn [map zsum].
+  destruct fr; cbn [inside]; rewrite ?Bool.orb_false_r; reflexivity.
+Qed.
